@@ -18,16 +18,20 @@ import (
 func init() {
 	register(&propDef{
 		id: "C28",
-		explain: "Structural necessary condition of 'Args behaves as an insertion-ordered multimap': every function that moves elements inside a []argsKV (element stores fed by element loads, or copy() within one slice) is order-preserving by construction - copy shifts left by a constant, and no element is loaded from an index derived from the slice length (the tail) and stored at an index that is not - and every shortening of Args.args is [:0], the result of such a routine, or happens inside one. Not decided: agreement of Peek/Set/Add with a reference model over operation sequences, parsing and encoding.",
-		run:     func(p *Prog, r *Report) { runKVOrder(p, r, "C28") },
+		explain: "Structural necessary condition of 'Args behaves as an insertion-ordered multimap': every function that moves elements inside a []argsKV (element stores fed by element loads, or copy() within one slice) is order-preserving by construction - copy shifts left by a constant, and no element is loaded from an index derived from the slice length (the tail) and stored at an index that is not - and every shortening of Args.args is [:0], the result of such a routine, or happens inside one; (coupling) every function of the Args machinery that assigns an entry's value also assigns its no-value flag on every path. Not decided: agreement of Peek/Set/Add with a reference model over operation sequences, parsing and encoding.",
+		run: func(p *Prog, r *Report) {
+			runKVOrder(p, r, "C28")
+			runKVCoupling(p, r)
+		},
 	})
 	register(&propDef{
 		id: "C29",
-		explain: "Structural necessary conditions of 'headers behave as an ordered case-insensitive multimap': (E11) as for C28, for header.h / cookies storage of both header types; (sibling) the special header names handled by the set / peek / peekAll / del / serialise paths of each header type are the same set, so a name stored in a dedicated field by one operation is found by the others; (E7) CopyTo writes every field of the destination header. Not decided: model agreement over operation sequences, parse/serialise round trip.",
+		explain: "Structural necessary conditions of 'headers behave as an ordered case-insensitive multimap': (E11) as for C28, for header.h / cookies storage of both header types; (sibling) the special header names handled by the set / peek / peekAll / del / serialise paths of each header type are the same set, so a name stored in a dedicated field by one operation is found by the others; (E7) CopyTo writes every field of the destination header from the same field of the source; (accumulate) the generic Set-Cookie paths of the response header (setter switch and parser) append to the cookie list and never replace by key. Not decided: model agreement over operation sequences, parse/serialise round trip.",
 		run: func(p *Prog, r *Report) {
 			runKVOrder(p, r, "C29")
 			runHeaderSiblings(p, r)
 			runCopyToCoverage(p, r)
+			runSetCookieAccumulates(p, r)
 		},
 	})
 }
@@ -609,4 +613,141 @@ func copyExempt(typ, fp string) string {
 		return "logging option of the owner (server/client impose it before every use), not header content"
 	}
 	return ""
+}
+
+// runKVCoupling (C28): the value of an Args entry and its "has no value" flag
+// are one logical field: every function of the Args machinery that assigns
+// argsKV.value also assigns argsKV.noValue of the same element on every path
+// through that assignment (before or after it). A stale flag makes the
+// serialised query string disagree with what Peek returns.
+func runKVCoupling(p *Prog, r *Report) {
+	n := 0
+	for _, fn := range p.funcsIn("") {
+		rt := recvTypeName(fn)
+		if rt != "" && rt != "Args" && rt != "argsScanner" {
+			continue
+		}
+		if rt == "" {
+			// package-level helpers taking or returning []argsKV
+			uses := false
+			for _, prm := range fn.Params {
+				if isKVSlice(prm.Type()) {
+					uses = true
+				}
+			}
+			if !uses {
+				continue
+			}
+		}
+		for _, b := range fn.Blocks {
+			for _, in := range b.Instrs {
+				st, ok := in.(*ssa.Store)
+				if !ok {
+					continue
+				}
+				fa, ok := st.Addr.(*ssa.FieldAddr)
+				if !ok || typeNameOf(fa.X) != "argsKV" || fieldName(fa.X.Type(), fa.Field) != "value" {
+					continue
+				}
+				// an entry of freshly allocated storage starts with the zero flag
+				if _, isAlloc := fa.X.(*ssa.Alloc); isAlloc {
+					continue
+				}
+				if ia, isIdx := fa.X.(*ssa.IndexAddr); isIdx {
+					if _, fresh := ia.X.(*ssa.MakeSlice); fresh {
+						continue
+					}
+				}
+				n++
+				elem := fa.X
+				flagStore := func(i ssa.Instruction) bool {
+					s2, ok := i.(*ssa.Store)
+					if !ok {
+						return false
+					}
+					fa2, ok := s2.Addr.(*ssa.FieldAddr)
+					if !ok || typeNameOf(fa2.X) != "argsKV" || fieldName(fa2.X.Type(), fa2.Field) != "noValue" {
+						return false
+					}
+					return fa2.X == elem || sameElem(fa2.X, elem)
+				}
+				// a whole-element store (*kv = argsKV{...}) also sets the flag
+				whole := func(i ssa.Instruction) bool {
+					s2, ok := i.(*ssa.Store)
+					return ok && (s2.Addr == elem || sameElem(s2.Addr, elem))
+				}
+				dominated := false
+				for _, bb := range fn.Blocks {
+					for _, i2 := range bb.Instrs {
+						if (flagStore(i2) || whole(i2)) && dominatesInstr(i2, st) {
+							dominated = true
+						}
+					}
+				}
+				hit, path := reachAvoiding(fn, st, isReturn, orPred(flagStore, whole), nil)
+				r.Check("coupling", fmt.Sprintf("%s: assigning an entry's value also assigns its no-value flag on every path", funcName(fn)), dominated || hit == nil, p.Pos(st.Pos()),
+					"a return is reachable after storing argsKV.value without storing argsKV.noValue of the same entry: an entry that used to be value-less keeps its flag, so the query string is written without the value that Peek returns", blocksString(p, path)...)
+			}
+		}
+	}
+	r.Floor("coupling", "stores to argsKV.value in the Args machinery", n, 4)
+}
+
+func sameElem(a, b ssa.Value) bool {
+	ia, ok1 := a.(*ssa.IndexAddr)
+	ib, ok2 := b.(*ssa.IndexAddr)
+	return ok1 && ok2 && ia.X == ib.X && ia.Index == ib.Index
+}
+
+// runSetCookieAccumulates (C29): wherever a header line named Set-Cookie is
+// stored through the generic paths (the setter's special-name switch and the
+// parser), the cookie list is appended to, never keyed-replaced: "cookies
+// accumulate". (SetCookie(*Cookie) replaces by cookie name by documented design
+// and is not a generic header path.)
+func runSetCookieAccumulates(p *Prog, r *Report) {
+	cic := p.Func("caseInsensitiveCompare")
+	n := 0
+	for _, fn := range p.funcsIn("") {
+		if recvTypeName(fn) != "ResponseHeader" {
+			continue
+		}
+		for _, b := range fn.Blocks {
+			under := false
+			for _, g := range guardsOf(b) {
+				if c, ok := g.Cond.(*ssa.Call); ok && g.Pol && isCallTo(c, cic) {
+					for _, a := range c.Call.Args {
+						if globalOf(a) == "strSetCookie" {
+							under = true
+						}
+					}
+				}
+			}
+			if !under {
+				continue
+			}
+			for _, in := range b.Instrs {
+				c, ok := in.(*ssa.Call)
+				if !ok {
+					continue
+				}
+				f := c.Call.StaticCallee()
+				if f == nil || len(c.Call.Args) == 0 {
+					continue
+				}
+				if _, fv := loadedField(c.Call.Args[0]); fv == nil || fv.Name() != "cookies" {
+					continue
+				}
+				switch f.Name() {
+				case "allocArg", "appendArg", "appendArgBytes":
+					n++
+					r.Check("accumulate", funcName(fn)+": a Set-Cookie line is appended to the cookie list", true, p.Pos(c.Pos()), "")
+				case "setArg", "setArgBytes":
+					n++
+					r.Check("accumulate", funcName(fn)+": a Set-Cookie line is appended to the cookie list", false, p.Pos(c.Pos()),
+						"the generic Set-Cookie path stores with "+f.Name()+", which replaces an existing entry with the same key: a second Set-Cookie with the same cookie name silently overwrites the first and changes the order")
+				}
+			}
+		}
+	}
+	r.Floor("accumulate", "Set-Cookie storage sites under a Set-Cookie name test", n, 2)
 }
